@@ -35,6 +35,7 @@ def c14Hyps (j : Json) : Except String Json := do
                     ("inertBody2", Json.bool (Mistletoe.InertInline2.inertBody2 (Document.joinNl (lines.map Py.strip)))),
                     ("inertBody3", Json.bool (Mistletoe.InertInline2.inertBody3 (Document.joinNl (lines.map Py.strip)))),
                     ("inertBody4", Json.bool (Mistletoe.InertInline3.inertBody4 (Document.joinNl (lines.map Py.strip)))),
+                    ("inertBody5", Json.bool (Mistletoe.InertInline5.inertBody5 (Document.joinNl (lines.map Py.strip)))),
                     ("text", Driver.str (Document.joinNl (lines.map Py.strip)))])
 
 /-- a tree of the C03 fragment from JSON: {"k":"para","lines":[…]} | {"k":"heading","level":n,"text":…,"line":…}
